@@ -200,13 +200,21 @@ fn number_respelled(t: &str, rng: &mut Rng) -> Option<String> {
     if cands.is_empty() { None } else { Some(cands[rng.usize_below(cands.len())].clone()) }
 }
 
-/// The same text as a leaf of another kind: a number as a string and back, a literal as a string.
-fn other_kind_same_text(v: &Value) -> Option<Value> {
+/// A value of another kind that an over-eager comparison might confuse with `v`: the same text as
+/// a leaf of another kind (a number as a string and back, a literal as a string), the "empty" or
+/// "zero" value of another kind (null, false, 0, "", [], {}), true against 1.
+fn other_kind_same_text(v: &Value) -> Option<Value> { kin(v, 0) }
+fn kin(v: &Value, pick: usize) -> Option<Value> {
+    let num = |t: &str| Value::Number(json_syntax::NumberBuf::new(t.as_bytes().into()).unwrap());
+    let empties = |skip: usize| -> Value { [Value::Null, Value::Boolean(false), num("0"), Value::String("".into()), Value::Array(vec![].into()), Value::Object(Object::new())][(skip + 1 + pick % 5) % 6].clone() };
     match v {
-        Value::Number(n) => Some(Value::String(n.as_str().into())),
+        Value::Number(n) => if pick % 3 == 2 && n.as_str() == "0" { Some(empties(2)) } else if pick % 3 == 2 && n.as_str() == "1" { Some(Value::Boolean(true)) } else { Some(Value::String(n.as_str().into())) },
+        Value::String(s) if s.is_empty() => Some(empties(3)),
         Value::String(s) => json_syntax::NumberBuf::new(s.as_str().as_bytes().into()).ok().map(Value::Number),
-        Value::Null => Some(Value::String("null".into())),
-        Value::Boolean(b) => Some(Value::String(if *b { "true" } else { "false" }.into())),
+        Value::Null => if pick % 2 == 0 { Some(Value::String("null".into())) } else { Some(empties(0)) },
+        Value::Boolean(b) => match pick % 3 { 0 => Some(Value::String(if *b { "true" } else { "false" }.into())), 1 => Some(num(if *b { "1" } else { "0" })), _ => if *b { Some(Value::Boolean(false)) } else { Some(empties(1)) } },
+        Value::Array(a) if a.is_empty() => Some(empties(4)),
+        Value::Object(o) if o.is_empty() => Some(empties(5)),
         _ => None,
     }
 }
@@ -219,7 +227,7 @@ fn change_one_deep_leaf(v: &mut Value, rng: &mut Rng) {
             let i = rng.usize_below(o.len());
             if let Some((_, slot)) = o.iter_mut().nth(i) { change_one_deep_leaf(slot, rng) }
         }
-        Value::Number(_) | Value::String(_) | Value::Null | Value::Boolean(_) if rng.chance(1, 6) && other_kind_same_text(v).is_some() => { *v = other_kind_same_text(v).unwrap(); }
+        Value::Number(_) | Value::String(_) | Value::Null | Value::Boolean(_) if rng.chance(1, 6) && other_kind_same_text(v).is_some() => { let k = rng.usize_below(30); *v = kin(v, k).or_else(|| other_kind_same_text(v)).unwrap(); }
         Value::Number(n) if rng.chance(1, 3) && number_respelled(n.as_str(), &mut rng.clone()).is_some() => { let t = number_respelled(n.as_str(), rng).unwrap(); *v = Value::Number(json_syntax::NumberBuf::new(t.as_bytes().into()).unwrap()); }
         Value::Number(n) => {
             // one digit moved to its neighbour (first, last or any digit), or the whole number replaced
@@ -337,7 +345,7 @@ pub fn run_c14(sc: &HistSc, st: &mut Stats) -> super::c06::HistOutcome {
             set_hash_config(hash_mode_of("good"), rng.next_u64());
             let mut near: Vec<(&'static str, Vec<Entry>)> = vec![];
             { let mut e = obs.clone(); e[j].value = different_leaf(&e[j].value); near.push(("one value changed", e)); }
-            if let Some(w) = other_kind_same_text(&obs[j].value) { let mut e = obs.clone(); e[j].value = w; near.push(("one value turned into a leaf of another kind with the same text", e)); }
+            if let Some(w) = kin(&obs[j].value, rng.usize_below(30)) { let mut e = obs.clone(); e[j].value = w; near.push(("one value turned into its kin of another kind (same text, or the other kind's empty / zero value)", e)); }
             if let Value::Number(n) = &obs[j].value { if let Some(t) = number_respelled(n.as_str(), &mut rng) { let mut e = obs.clone(); e[j].value = Value::Number(json_syntax::NumberBuf::new(t.as_bytes().into()).unwrap()); near.push(("one number respelled (exponent marker, sign, trailing zero)", e)); } }
             { let mut e = obs.clone(); change_one_deep_leaf(&mut e[j].value, &mut rng); near.push(("one leaf changed inside a nested value", e)); }
             { let mut e = obs.clone(); let mut k = e[j].key.as_str().to_string(); k.push('~'); e[j].key = Key::from(k.as_str()); near.push(("one key changed", e)); }
